@@ -16,6 +16,11 @@
   same iteration, outside `_cv`, not from a nested function;
 * the fifo is only ever `append`ed to (in `push_rpc_request`) and `popleft`ed (in `run` and `_reject_remaining_requests`);
 * `push_rpc_request` is called only by `RpcObjectManager.handle_message`, under `_stop_lock`, after the `_running` test;
+* all code of the object runs in its worker: in `rpc.py` and `context.py` the only *calls* on the live object are
+  `get_name()` inside `_handle_lock_rpc_request` (worker, while handling a request) and the life-cycle hook
+  `release_rpc_object()` in the epilogue of `_RpcThread.run` (the constructor runs through `_rpc_object_maker()` in `run`
+  too); everything else only reads the immutable `rpc_object_descriptor` / `_name` or passes the object to
+  `getattr` / `getattr_static` / `type` / `isinstance`;
 * the proxy never hands out anything that could be the object: `QMI_RpcProxy.__enter__` returns `self` (the proxy) and
   nothing else, every generated method of the two proxy classes is one lambda forwarding to `blocking_rpc_method_call` /
   `non_blocking_rpc_method_call`, and every other method of `QMI_RpcProxy` returns a constant, a comparison or a text.
@@ -44,6 +49,9 @@ structure CodeShape where
   noNestedScope : Bool
   shutdownCheckedBeforePop : Bool
   handlerCallsInRun : Nat
+  objectCalls : List (String × String)
+  objectReads : List (String × String)
+  objectPassedTo : List (String × String)
   proxyEnterReturns : List String
   proxyForwardTargets : List (String × String)
   proxyOtherReturns : List (String × String)
@@ -67,6 +75,12 @@ def CodeShape.ok (c : CodeShape) : Bool :=
   && c.popsInLoop == 1 && c.popKinds == ["popleft"] && c.popsUnderCv && c.popsInLoopBody
   && c.handlersAfterPopSameIteration && c.handlersNotUnderCv && c.noNestedScope && c.shutdownCheckedBeforePop
   && c.handlerCallsInRun == 2
+  && c.objectCalls == [("rpc:_RpcThread._handle_lock_rpc_request", "get_name"),
+                       ("rpc:_RpcThread.run", "release_rpc_object")]
+  && c.objectReads.all (fun p => p.2 == "rpc_object_descriptor" || p.2 == "_name")
+  && c.objectPassedTo.all (fun p =>
+       (p.1 == "rpc:_RpcThread._check_and_get_method" && (p.2 == "getattr" || p.2 == "inspect.getattr_static" || p.2 == "type"))
+       || ((p.1 == "rpc:_RpcThread.run" || p.1 == "rpc:_RpcThread.rpc_object") && (p.2 == "isinstance" || p.2 == "type")))
   && c.proxyEnterReturns == ["self"]
   && c.proxyForwardTargets == [("QMI_RpcProxy", "blocking_rpc_method_call"),
                                ("QMI_RpcNonBlockingProxy", "non_blocking_rpc_method_call")]
